@@ -60,6 +60,7 @@ KERNELS = {
         dict(name="pr_act_scaling", file=PPO, func="PPOResult.policy", loc=("kwarg", "Policy", 0, "act_scaling"), **PATH, props=P),
         dict(name="pr_obs_key", file=PPO, func="PPOResult.obs_scaling", loc=("call_arg", "self.runner_state.env_state.aux.get", 0, 0), **STR, props=P),
         dict(name="pr_act_key", file=PPO, func="PPOResult.act_scaling", loc=("call_arg", "self.runner_state.env_state.aux.get", 0, 0), **STR, props=P),
+        dict(name="pr_act_select", file=PPO, func="PPOResult.act_scaling", loc=("lambda", 0), tr_class=TrC20, sym="Text", rtype="String", params=[], props=P),
         dict(name="tr_actor_hidden_activation", file=PPO, func="train", loc=("kwarg", "Actor", 0, "hidden_activation"), **PATH, props=P),
         dict(name="tr_actor_state_independent_std", file=PPO, func="train", loc=("kwarg", "Actor", 0, "state_independent_std"), **PATH, props=P),
         dict(name="tr_train_state_params", file=PPO, func="train", loc=("kwarg", "TrainState.create", 0, "params"), **PATH, props=P),
